@@ -412,7 +412,17 @@ def r113(ctx, rep):
                         n_fwd += 1
                     bad = [(tp, a) for tp, a in targs if _sort_calls(ctx, fn, a)]
                     construct = '%s(..., presorted=presorted)' % norm(node.func)
-                    if bad:
+                    # the promise is about the caller's table as it was passed in: a projection / other view of it
+                    # (cut, cutout, ...) is not ordered by the callee's key (whole rows of a projection, say)
+                    derived = [(tp, a) for tp, a in targs if isinstance(a, ast.Call) and not _sort_calls(ctx, fn, a) and
+                               any(r.kind in ('func', 'class') and getattr(r.target, 'module', None) is not None
+                                   for r in ctx.res.resolve_call(fn, a))]
+                    if derived and not bad:
+                        rep.violated('R11.3', fn, construct,
+                                     'the caller\'s presorted flag is forwarded together with a view derived from its table '
+                                     '(%s): that view is not known to be ordered by the key the callee sorts by, so '
+                                     'presorted=True makes the callee skip a sort it needs' % norm(derived[0][1])[:60], node)
+                    elif bad:
                         rep.violated('R11.3', fn, construct,
                                      'the caller\'s presorted flag is forwarded together with a table that was '
                                      're-sorted by another key (%s): presorted=True then skips the sort by the '
